@@ -55,7 +55,7 @@ func Oracle(r *hx.Run, id string, c dialx.Case, o dialx.Obs) {
 		}
 	}
 	open := o.Opened && !o.Closed
-	if c.SSL {
+	if c.Net() {
 		open = o.Opened && !o.Ended
 	}
 	what := fmt.Sprintf("result %s (%s), server saw %s, Close calls %d", strings.Join(o.Results, "/"), o.Err, o.Srv, o.Closes)
@@ -334,6 +334,7 @@ func generate(r *hx.Run, pki *dialx.PKI) []dialx.Case {
 			}
 		}
 	}
+	out = append(out, dialx.FallbackTCPCases()...)
 	for _, hs := range []string{"wrongname", "untrusted", "garbage"} {
 		out = append(out, dialx.Case{Kind: "dial", Policy: "M", SSL: true, Auth: "NOAUTH", Custom: "-", Host: "127.0.0.1", Mute: -1, Caps: capsTLS, CapsTLS: capsTLS, HS: hs})
 	}
